@@ -38,6 +38,8 @@ def run(prog, tier):
     check_group_ids(R, prog)
     check_provenance(R, prog)
     check_declared_range(R, prog)
+    from ._shared import check_no_shared_state
+    check_no_shared_state(R, prog, P, ['cnfgen.formula'], 120)
     return R
 
 
@@ -301,6 +303,30 @@ def check_group_ids(R, prog):
         R.ok("GROUP-SIZE", "BinaryMappingVariables: nvar = n * bitlength", fi.key)
     elif nv is not None:
         R.bad(F("GROUP-SIZE", fi, "BinaryMappingVariables nvar", "one block of bitlength bits per domain element: nvar = n * bitlength; found %s" % src(nv)))
+    # the number of bits per element: the least k with m <= 2**k, for every range size (constant folding of the expression)
+    bl = env.get("self.bitlength")
+    mparam = fi.params[3] if len(fi.params) > 3 else "m"
+    if bl is None:
+        raise AnalysisError("BinaryMappingVariables.__init__: assignment to self.bitlength not found")
+    wrong = None
+    try:
+        for m in list(range(0, 1030)) + [2 ** 12, 2 ** 12 + 1, 2 ** 16 - 1, 2 ** 16, 2 ** 16 + 1]:
+            k = 0
+            while 2 ** k < m:
+                k += 1
+            got = fold(bl, {mparam: m})
+            if got != k:
+                wrong = (m, got, k)
+                break
+    except Unknown as e:
+        R.unknown("GROUP-SIZE", "BinaryMappingVariables bitlength", fi.key, str(e))
+        wrong = False
+    if wrong is None:
+        R.ok("GROUP-SIZE", "BinaryMappingVariables: bitlength = least k with m <= 2**k for every m in 0..1029 and around 2**12, 2**16", fi.key)
+    elif wrong:
+        R.bad(F("GROUP-SIZE", fi, "BinaryMappingVariables bitlength",
+                "for a range of %d elements `%s` gives %r bits, the documented number (least k with m <= 2**k) is %d: the group owns another "
+                "number of variables than promised" % (wrong[0], src(bl), wrong[1], wrong[2])))
     # FIRST-LAST-ID
     first_last(R, prog)
 
@@ -506,3 +532,48 @@ def check_declared_range(R, prog):
                 R.ok("DECLARED-RANGE", "%s: variables are drawn from range(1, n+1) only" % fname, f.key)
             else:
                 R.bad(F("DECLARED-RANGE", f, "%s variable range" % fname, "variables of sampled constraints must come from range(1, n+1)"))
+
+
+def fold(e, env):
+    """constant folding of a pure arithmetic expression (ints, comparisons, conditional expressions, ceil / floor / log / int,
+    int.bit_length) under an assignment of its free names; Unknown for anything else"""
+    import math
+    if isinstance(e, ast.Constant) and isinstance(e.value, (int, float)) and not isinstance(e.value, bool):
+        return e.value
+    if isinstance(e, ast.Name):
+        if e.id in env:
+            return env[e.id]
+        raise Unknown("free name %s" % e.id)
+    if isinstance(e, ast.UnaryOp) and isinstance(e.op, ast.USub):
+        return -fold(e.operand, env)
+    if isinstance(e, ast.BinOp):
+        a, b = fold(e.left, env), fold(e.right, env)
+        ops = {ast.Add: lambda: a + b, ast.Sub: lambda: a - b, ast.Mult: lambda: a * b, ast.FloorDiv: lambda: a // b,
+               ast.Div: lambda: a / b, ast.Pow: lambda: a ** b, ast.Mod: lambda: a % b}
+        if type(e.op) in ops:
+            try:
+                return ops[type(e.op)]()
+            except (ZeroDivisionError, ValueError, OverflowError) as x:
+                raise Unknown(str(x))
+    if isinstance(e, ast.IfExp):
+        return fold(e.body, env) if fold(e.test, env) else fold(e.orelse, env)
+    if isinstance(e, ast.Compare) and len(e.ops) == 1:
+        a, b = fold(e.left, env), fold(e.comparators[0], env)
+        cmp = {ast.Lt: a < b, ast.LtE: a <= b, ast.Gt: a > b, ast.GtE: a >= b, ast.Eq: a == b, ast.NotEq: a != b}
+        if type(e.ops[0]) in cmp:
+            return cmp[type(e.ops[0])]
+    if isinstance(e, ast.Call):
+        name = call_name(e) or ""
+        args = [fold(a, env) for a in e.args]
+        try:
+            if name in ("int", "ceil", "floor", "math.ceil", "math.floor", "abs", "max", "min", "len") and args:
+                return {"int": lambda: int(args[0]), "ceil": lambda: math.ceil(args[0]), "math.ceil": lambda: math.ceil(args[0]),
+                        "floor": lambda: math.floor(args[0]), "math.floor": lambda: math.floor(args[0]), "abs": lambda: abs(args[0]),
+                        "max": lambda: max(args), "min": lambda: min(args)}[name]()
+            if name in ("log", "math.log", "log2", "math.log2"):
+                return math.log2(args[0]) if name.endswith("log2") else math.log(*args)
+            if isinstance(e.func, ast.Attribute) and e.func.attr == "bit_length" and not e.args:
+                return int(fold(e.func.value, env)).bit_length()
+        except (ValueError, ZeroDivisionError, OverflowError) as x:
+            raise Unknown("%s: %s" % (src(e), x))
+    raise Unknown("cannot fold %s" % src(e))
